@@ -236,8 +236,11 @@ def run(ctx):
                 names = [x + rng.choice(["\n", "\nz", ""]) for x in names]
         if any(any(c in x for c in sep) for x in names):
             continue
+        if r % 11 == 5 and kind in ("Node", "AnyNode") and sep not in "(),' ":
+            names = [("t%d" % i,) if i % 2 else ("t", i) for i in range(n)]  # non-string names: compared as str(value), shown in error messages
+            ctx.count("C08.tuple_valued_names")
         uniq = sibling_unique(ch, par, names, ic)
-        if any(any(c in x for c in ".+[](){}^$|\\") for x in names):
+        if any(any(c in str(x) for c in ".+[](){}^$|\\") for x in names):
             ctx.count("C08.metachar_name")
         nodes = build(par, names, kind, sep)
         idmap = {id(o): i for i, o in enumerate(nodes)}
